@@ -1153,7 +1153,7 @@ int dsh(opt_t * opt)
         /* wait until "room" for another thread */
         dsh_mutex_lock(&threadcount_mutex);
 
-        if (opt->fanout == threadcount)
+        while (opt->fanout == threadcount)
             pthread_cond_wait(&threadcount_cond, &threadcount_mutex);
 
         /*
